@@ -69,6 +69,12 @@ class Gen:
                 if self.W * self.H <= maxarea:
                     break
         self.fmt = rng.choice(FMTS)
+        self.big = False
+        if maxarea and rng.random() < 0.04:
+            # reduced picture of a Raw client larger than the 32 KiB update buffer (multi-piece Raw rectangles)
+            self.big = True
+            self.W, self.H = rng.choice([(208, 200), (220, 180), (1024, 40), (400, 96), (190, 230)])
+            self.fmt = "32"
         self.cl = {}          # id -> dict(tw, th, synced, dirty, nfs, mask)
         self.next_id = 0
         self.defer = 0
@@ -86,10 +92,11 @@ class Gen:
         self.next_id += 1
         nfs = 1 if self.rng.random() < 0.3 else 0
         enc = self.rng.choice(["raw", "raw", "raw", "corre", "corre", "zlib", "ultra"])
-        if self.fmt == "24":
+        if self.fmt == "24" or self.big:
             enc = "raw"     # the splitting encoders have no 24 bpp client format (they fail the update)
-        self.emit("client %d %d %s" % (i, nfs, enc))
-        self.cl[i] = dict(tw=self.W, th=self.H, synced=False, dirty=True, nfs=nfs, mask=0, enc=enc)
+        cr = self.rng.random() < 0.25
+        self.emit("client %d %d %s%s" % (i, nfs, enc, " cr" if cr else ""))
+        self.cl[i] = dict(tw=self.W, th=self.H, synced=False, dirty=True, nfs=nfs, mask=0, enc=enc, cr=cr)
         return i
 
     def factor(self):
@@ -253,9 +260,11 @@ class Gen:
             sy = y                      # horizontal scroll
         elif rng.random() < 0.3:
             sx = x                      # vertical scroll
-        self.emit("copy %d %d %d %d %d %d" % (x, y, w, h, x - sx, y - sy))
+        self.emit("%s %d %d %d %d %d %d" % (rng.choice(["copy", "schedcopy"]), x, y, w, h, x - sx, y - sy))
         for c in self.cl.values():
             c["dirty"] = True
+            if c["cr"]:
+                c["synced"] = False     # scaled CopyRect is approximate: judged after a full refresh only
 
     def ptr1(self, i, mask):
         rng, c = self.rng, self.cl[i]
